@@ -1,21 +1,21 @@
-"""C02 — scalar fields decode with the documented byte order, bit numbering and format.
+"""C03 — field writes are range-checked, read back exactly, touch only their own bits.
 
-Tie: correspondence.  (1) The runtime view templates are instantiated directly
-(UIntView/IntView/BcdView/FlagView/FloatView/EnumView over BitBlock and over
-OffsetBitBlock<BitBlock<{Little,Big}Endian|Null ByteOrderer<ContiguousBuffer>>>) for
-(type, k, c, o, byte order, alignment), both runtime code paths, and compared case by
-case with the Lean model (`SCALAR` op of model_c02).  (2) Real generated headers for
-random .emb modules (fields of every scalar type in structs and in bits, both byte
-orders): the view-type selection of header_generator is tied as well.
-Judge: `scalarcpp.spec` (containerValue / bits / two's complement / BCD / bit pattern).
+Tie: correspondence.  (1) The same executions as C02 (runtime view templates instantiated
+directly; real generated headers for random modules), judged on the write half of every
+case: CouldWriteValue, TryToWrite, the buffer afterwards (whole structure for generated
+headers), Ok()/Read() afterwards.  Write values: in-range boundaries, just outside, the
+argument type's min/max, for the templated IntT overloads int8..uint64.
+(2) Write inference: random `let` fields compiled by the real front end; the `write_method`
+in the IR is compared structurally with the Lean model (`WMETHOD`/`INVERT`), judged by the
+independent substitute-and-evaluate oracle, and exercised through the generated C++.
 """
 import collections
 import json
 
 from harness.lib import common, scalarcheck, scalarcpp
 
-PROP = "C02"
-MODEL = "model_c02"
+PROP = "C03"
+MODEL = "model_c03"
 
 
 def explore(chk, tier, model_exe, budget="run"):
@@ -35,6 +35,13 @@ def explore(chk, tier, model_exe, budget="run"):
         scalaremb.header_part(chk, PROP, tier, model_exe, stats, budget)
         timing["generated_headers"] = round(time.time() - t0, 1)
         t0 = time.time()
+    try:
+        from harness.lib import winf
+    except ImportError:
+        winf = None
+    if winf is not None:
+        winf.run_winf(chk, tier, model_exe, stats, budget)
+        timing["write_inference"] = round(time.time() - t0, 1)
     stats.pop("_reported", None)
     chk.extra["distribution"] = dict(sorted(stats.items()))
     return stats
@@ -49,10 +56,10 @@ def search(chk):
 
 def run(tier):
     chk = common.Check(PROP, tier, exes=[MODEL])
-    chk.cov["rule"] = ("one evaluation = one (configuration, container contents) read on the real "
-                       "runtime; non-trivial = complete view whose field is a proper part of its "
-                       "container (shift/mask exercised); distinct by (type, k, c, o, byte order, "
-                       "mode, code path)")
+    chk.cov["rule"] = ("one evaluation = one (configuration, contents, value) CouldWriteValue+TryToWrite "
+                       "on the real runtime, or one virtual field's write method; non-trivial = successful "
+                       "write into a field that is a proper part of its container (read-modify-write), or "
+                       "a virtual field with alias/transform write method; distinct by configuration / text")
     chk.trusted += ["g++/clang++, libstdc++, ASan/UBSan as oracles of what the C++ runtime does",
                     "host is little-endian x86-64; memcpy and __builtin_bswap modelled, not verified",
                     "unsigned->signed conversion taken as two's complement (as the runtime assumes)"]
@@ -66,6 +73,9 @@ def run(tier):
 
 def replay(path):
     rec = json.load(open(path))
+    if rec.get("kind_of_input") == "winf":
+        from harness.lib import winf
+        return winf.replay_winf(rec)
     if rec.get("kind_of_input") == "emb-module":
         from harness.lib import scalaremb
         return scalaremb.replay(rec)
